@@ -105,6 +105,7 @@ type G struct {
 	spinCount   int    // visits on probation since the last active operation
 	lowPrio     bool   // on probation: runs only when nothing else can
 	starved     bool   // Options.Starve names this goroutine: it runs only when no other goroutine can ...
+	queuedAt    int    // step at which it was last put into the run queue (RunNext ageing)
 	lastRun     int    // ... unless it has not run for Options.StarveSteps steps (step of its last operation)
 	lastSelKey  uint32 // visit key and clause of the last select that took a receive from a closed channel
 	lastSelCase int
@@ -556,13 +557,27 @@ func (e *Exec) block(g *G, what string) {
 func (e *Exec) ready(g *G) {
 	raceReleaseMerge(unsafe.Pointer(&g.raceTok)) // the waker's operation happens before the wakee resumes
 	g.state = stRunnable
-	if e.opts.RunNext {
+	g.queuedAt = e.steps
+	if e.opts.RunNext && !e.queueAged() {
 		// Go's own habit: a goroutine that has just been readied (woken or created) runs next
 		e.runq = pushFront(e.runq, g)
 	} else {
 		e.runq = push(e.runq, g)
 	}
 	e.touchG(g)
+}
+
+// queueAged tells whether some goroutine has been waiting in the run queue for more than
+// StarveSteps steps: then newly readied goroutines queue up behind it (FIFO) until it has run.
+// Like Go's runnext, which inherits a time slice and is not honoured for ever, this keeps the
+// "readied goroutine runs next" policy from starving a goroutine that others re-post or poll for.
+func (e *Exec) queueAged() bool {
+	for _, q := range e.runq {
+		if e.steps-q.queuedAt > e.opts.StarveSteps {
+			return true
+		}
+	}
+	return false
 }
 
 // active marks a non-passive operation of g (for spin detection).
